@@ -3709,6 +3709,26 @@ for _nm, _func, _title, _what in (
       replay=("quinn-test:stale_early_bi_handles_do_not_touch_fresh_stream", lambda m: [dict()]))
 
 
+def q0g_stopped_post(c, p):
+    st = p.p.state
+    acted = [x for x in st.calls if re.search(r"quinn_proto::SendStream::\w+$", x[0])]
+    if not acted:
+        return "true"
+    early = c.inp("_3", BOOL)
+    chk = [x for x in st.calls[:st.calls.index(acted[0])] if re.search(r"State::check_0rtt$", x[0])]
+    if not chk:
+        return not_(early)
+    ok = eq(c.ex.read_key(st, chk[-1][2] + "#discr", I64).t, bv(0))
+    return or_(not_(early), ok)
+
+
+Q(name="e2_quinn_send_stream_stopped_0rtt_guard", props=["C17"], crate="quinn", func=r"^send_stream_stopped$",
+  allowed_panics=r".", ignore_untranslatable=r".",
+  functions=["quinn::send_stream::send_stream_stopped (the body of SendStream::stopped / Stopped::poll)"], pre=lambda c: "true", post=q0g_stopped_post,
+  bounds="every state of the connection, both values of the handle's is_0rtt flag: the helper behind SendStream::stopped asks the protocol state machine about the stream only if the handle was not created during 0-RTT, or check_0rtt was asked first and did not report a rejection - a stale handle reports the fresh stream's STOP_SENDING state otherwise",
+  replay=("quinn-test:stale_early_bi_handles_do_not_touch_fresh_stream", lambda m: [dict()]))
+
+
 # ------------------------------------------------------------------ C11: every stream event wakes the parties that wait for it (one iteration of the event loop)
 def qfe_post(c, p):
     st = p.p.state
